@@ -754,6 +754,15 @@ fn band_cases(thorough: bool) -> Vec<Case> {
                 }
             }
         }
+        // a user threshold above the smallest singular value of the weighted basis matrix: the rank of the decomposition is
+        // below M, the degrees of freedom stay N - M - P
+        for f32_ in [false, true] {
+            for eps in [0.5, 0.05, -0.2] {
+                for nu in [2usize, 9] {
+                    v.push(Case { fam: fam.clone(), n: fam.m() + fam.p() + nu, prov: Prov::Hand, par: false, w: WKind::None, noise_variant: 1, level: 1e-3, amp: 1.0, solver: 0, f32_, eps });
+                }
+            }
+        }
         for f32_ in [false, true] {
             for nu in [100usize, 995, 1001, 1201, 5000] {
                 if nu > 100 && fi >= 2 && fi != 3 {
